@@ -10,21 +10,56 @@ import sys
 import traceback
 
 
+def _one(mod, it):
+    try:
+        r = mod.replay(it['harness'], it['witness'])
+        if isinstance(r, bool):
+            r = {'violates': r}
+        return r
+    except BaseException as exc:  # noqa
+        return {'violates': False, 'error': '%r %s' % (exc, traceback.format_exc()[-800:])}
+
+
+def _isolated(mod, it):
+    import os
+    rd, wr = os.pipe()
+    pid = os.fork()
+    if pid == 0:
+        code = 0
+        try:
+            os.close(rd)
+            data = json.dumps(_one(mod, it), default=str).encode()
+            with os.fdopen(wr, 'wb') as f:
+                f.write(data)
+        except BaseException:  # noqa
+            code = 3
+        finally:
+            os._exit(code)
+    os.close(wr)
+    with os.fdopen(rd, 'rb') as f:
+        data = f.read()
+    _, status = os.waitpid(pid, 0)
+    if not data:
+        return {'violates': False, 'error': 'replay child died (status %d)' % status}
+    return json.loads(data)
+
+
 def main() -> int:
     check_id, inp, outp = sys.argv[1:4]
     assert 'pysymex.loader' not in sys.modules
     mod = importlib.import_module('checks.%s' % check_id.lower())
     with open(inp) as f:
         items = json.load(f)
+    # pre-import what the check touches, then one forked child per witness: a replay must not see process-global
+    # state (caches, mutable defaults, class attributes) left behind by the replay before it
+    for fq in getattr(mod, 'FUNCTIONS', []):
+        try:
+            importlib.import_module(fq.split(':')[0])
+        except Exception:  # noqa: BLE001
+            pass
     out = []
     for it in items:
-        try:
-            r = mod.replay(it['harness'], it['witness'])
-            if isinstance(r, bool):
-                r = {'violates': r}
-            out.append(r)
-        except BaseException as exc:  # noqa
-            out.append({'violates': False, 'error': '%r %s' % (exc, traceback.format_exc()[-800:])})
+        out.append(_isolated(mod, it))
     with open(outp, 'w') as f:
         json.dump(out, f, default=str)
     return 0
